@@ -30,9 +30,11 @@ for r, (fm, cls) in FACT.items():
         t = getattr(sys.modules[fm], cls).transcoders
         fac = getattr(sys.modules[fm], cls)
         bad = []
-        for k in t:
-            for name in dir(fac):
-                if name.startswith("supports_") or name.startswith("make_"):
+        # every "is this id served" answer first, for all ids, before anything is built (building may repair the answer)
+        names = [n for n in dir(fac) if n.startswith("supports_")] + [n for n in dir(fac) if n.startswith("make_")]
+        for name in names:
+            for k in t:
+                if True:
                     try:
                         ans = getattr(fac, name)(k)
                         if name.startswith("supports_") and ans is not True:
